@@ -46,7 +46,17 @@ def _sx(e):
         return ["ite", _sx(e.test), _sx(e.body), _sx(e.orelse)]
     if isinstance(e, ast.Compare):
         if len(e.ops) != 1 or len(e.comparators) != 1:
-            return ["other", "compare-chain"]
+            # a chained comparison `l op1 c1 op2 c2 …`.  Neither folding pass touches the node itself
+            # (`ConstantFolder.visit_Compare` folds under the guard `len(node.ops) == 1 and len(node.comparators) == 1`
+            # only; `ASTRewriter` has no `visit_Compare`): both visit the operands, left to right, and leave the node
+            # - exactly what they do with a call of a name that is no builtin.  It is therefore carried through the
+            # Lean model as such a node, `.call "Compare:<ops>" [l, c1, c2, …]` (`foldE` / `visitE` on `.call` with a
+            # name outside `builtinFuncs` / `visitCall`'s table), and the real pass's result is serialised the same
+            # way: a pass that folds, drops or reorders a link of a chain differs tree for tree.
+            if len(e.ops) != len(e.comparators):
+                return ["other", "compare-chain-malformed"]
+            return (["call", "Compare:" + ",".join(type(o).__name__ for o in e.ops), _sx(e.left)]
+                    + [_sx(x) for x in e.comparators])
         return ["cmp", type(e.ops[0]).__name__, _sx(e.left), _sx(e.comparators[0])]
     if isinstance(e, ast.BinOp):
         return ["bin", type(e.op).__name__, _sx(e.left), _sx(e.right)]
